@@ -46,6 +46,106 @@ pub struct ReplicaPlan {
 
 pub struct Replicas;
 
+/// sketch of byte-slice keys (`T = &[u8]`, each key 8 bytes) by the sketcher family of `kind`
+fn sketch_slices<H: std::hash::Hasher + Default>(spec: &USpec, keys: &[&[u8]]) -> Vec<u64> {
+    use probminhash::densminhash::{OptDensMinHash, RevOptDensMinHash};
+    use probminhash::setsketcher::SetSketcher;
+    use probminhash::superminhasher::SuperMinHash;
+    use probminhash::superminhasher2::SuperMinHash2;
+    let bh = std::hash::BuildHasherDefault::<H>::default();
+    let m = spec.m;
+    match spec.kind {
+        UKind::SmhF64 | UKind::SmhF32 => {
+            let mut s = SuperMinHash::<f64, &[u8], H>::new(m, bh);
+            for k in keys {
+                s.sketch(k).unwrap();
+            }
+            s.get_hsketch().iter().map(|x| x.to_bits()).collect()
+        }
+        UKind::Smh2U64 | UKind::Smh2U32 => {
+            let mut s = SuperMinHash2::<u64, &[u8], H>::new(m, bh);
+            for k in keys {
+                s.sketch(k).unwrap();
+            }
+            s.get_hsketch().to_vec()
+        }
+        UKind::SetU16 | UKind::SetU32 => {
+            let mut s = SetSketcher::<u32, &[u8], H>::new(spec.setp.unwrap().params(m), bh);
+            for k in keys {
+                s.sketch(k).unwrap();
+            }
+            s.get_signature().iter().map(|x| *x as u64).collect()
+        }
+        UKind::OptF64 | UKind::OptF32 => {
+            let mut s = OptDensMinHash::<f64, &[u8], H>::new(m, bh);
+            for k in keys {
+                s.sketch(k);
+            }
+            let _ = s.end_sketch();
+            s.get_hsketch_u64()
+        }
+        UKind::RevF64 | UKind::RevF32 => {
+            let mut s = RevOptDensMinHash::<f64, &[u8], H>::new(m, bh);
+            for k in keys {
+                s.sketch(k);
+            }
+            let _ = s.end_sketch();
+            s.get_hsketch_u64()
+        }
+    }
+}
+
+/// the same byte strings stored at `shift` bytes past an 8-byte boundary
+fn shifted_copy(ids: &[u64], shift: usize) -> (Vec<u64>, usize) {
+    // backing store of u64 words: its start is 8-aligned whatever the allocator does
+    (vec![0u64; ids.len() + 1], shift % 8)
+}
+
+/// C12 for keys that live in the caller's memory: the same 8-byte strings held at different addresses
+/// (8-aligned, at every other offset, in another thread's buffer) must give the same sketch
+fn slice_key_replicas(ctx: &mut Ctx, spec: &USpec, ids: &[u64]) -> Result<(), Violation> {
+    fn run<H: std::hash::Hasher + Default>(spec: &USpec, ids: &[u64], shift: usize) -> Vec<u64> {
+        let (mut words, shift) = shifted_copy(ids, shift);
+        let bytes: &mut [u8] = unsafe { std::slice::from_raw_parts_mut(words.as_mut_ptr() as *mut u8, words.len() * 8) };
+        for (k, id) in ids.iter().enumerate() {
+            bytes[shift + 8 * k..shift + 8 * k + 8].copy_from_slice(&id.to_ne_bytes());
+        }
+        let bytes: &[u8] = bytes;
+        let keys: Vec<&[u8]> = (0..ids.len()).map(|k| &bytes[shift + 8 * k..shift + 8 * k + 8]).collect();
+        sketch_slices::<H>(spec, &keys)
+    }
+    fn all<H: std::hash::Hasher + Default>(ctx: &mut Ctx, spec: &USpec, ids: &[u64], hname: &str) -> Result<(), Violation> {
+        let reference = run::<H>(spec, ids, 0);
+        for shift in [0usize, 1, 2, 3, 4, 5, 6, 7] {
+            ctx.count("fault:same-key-bytes-at-another-address");
+            let other = if shift == 4 {
+                // this copy lives in, and is sketched by, another thread
+                std::thread::scope(|sc| sc.spawn(|| run::<H>(spec, ids, shift)).join().unwrap())
+            } else {
+                run::<H>(spec, ids, shift)
+            };
+            let same = other == reference;
+            ctx.check("C12", "same-key-bytes-at-another-address-agree", same, || {
+                format!(
+                    "{:?} m {} hasher {} over {} byte-slice keys: the sketch of the keys stored {} bytes past an 8-byte boundary differs from the sketch of the same bytes stored aligned",
+                    spec.kind,
+                    spec.m,
+                    hname,
+                    ids.len(),
+                    shift
+                )
+            })?;
+        }
+        Ok(())
+    }
+    ctx.ev("slice-key-replicas", ids.len() as u64);
+    all::<probminhash::nohasher::NoHashHasher>(ctx, spec, ids, "nohasher::NoHashHasher")?;
+    // the crate has a second public hasher of that name, next to SuperMinHash
+    all::<probminhash::superminhasher::NoHashHasher>(ctx, spec, ids, "superminhasher::NoHashHasher")?;
+    all::<fnv::FnvHasher>(ctx, spec, ids, "FnvHasher")?;
+    all::<crate::hashers::SimA>(ctx, spec, ids, "SimA")
+}
+
 /// a job executed step by step: step 0 constructs, steps 1..=n deliver, output() reads
 enum Exec {
     U { node: Box<dyn UNode>, plan: StreamPlan },
@@ -341,6 +441,11 @@ impl Scenario for Replicas {
         let total = plan.inline_replicas + plan.thread_replicas;
         let n = nsteps(&plan.job);
         ctx.sched.add(crate::prng::hash_str(&serde_json::to_string(&plan.job).unwrap()));
+        if let Job::U(sp) = &plan.job {
+            if sp.spec.m <= 128 && !sp.items.is_empty() && sp.items.len() <= 400 {
+                slice_key_replicas(ctx, &sp.spec, &sp.items)?;
+            }
+        }
         if plan.free_running {
             return self.execute_free_running(plan, ctx);
         }
